@@ -415,6 +415,18 @@ func c18RecoverHelper(c *Ctx, f *ssa.Function) {
 		}
 	})
 	c.check(inv != nil && cell != nil, "C18.shutdown.panic-isolation", f, "Shutdown's error is stored in the named result", inv, "the ordinary error is returned as is")
+	// every service is shut down: no return of the helper without the call
+	// (an expired context or an earlier failure is no reason to skip a service)
+	if inv != nil {
+		for _, ret := range core.Returns(f) {
+			if f.Recover != nil && ret.Block() == f.Recover {
+				continue
+			}
+			mn, mx, okC := core.CountOnPaths(f, nil, ret, func(in ssa.Instruction) bool { return in == ssa.Instruction(inv) })
+			c.check(okC && mn == 1 && mx == 1, "C18.shutdown.loop", f, "the helper calls s.Shutdown exactly once on every path", ret,
+				sprintf("Shutdown calls on the paths to this return: min %d max %d; a path around the call leaves a registered service running", mn, mx))
+		}
+	}
 	if cell == nil {
 		return
 	}
@@ -591,6 +603,16 @@ func c18Refresh(c *Ctx) {
 				refreshCall = in.(*ssa.Call)
 			}
 		})
+		// the wait is not skipped: every way from the loop head to a refresh
+		// passes the select (where Shutdown is noticed)
+		if refreshCall != nil {
+			mnS, _, okS := core.CountOnPaths(loop, head.Instrs[0], refreshCall, func(in ssa.Instruction) bool { return in == ssa.Instruction(sel) })
+			if head == sel.Block() {
+				mnS, okS = 1, true // the select is in the head block itself
+			}
+			c.check(okS && mnS >= 1, "C18.refresh.loop", loop, "every refresh is preceded, in its iteration, by the select on w.done", refreshCall,
+				"a path from the loop head to the refresh around the select (a fast path for a zero delay) starts refreshes after Shutdown has returned")
+		}
 		for _, p := range head.Preds {
 			if !body[p] {
 				continue
